@@ -383,8 +383,8 @@ def fteik2d(slow, dz, dx, zsrc, xsrc, nsweep=2, grad=False):
             tauv = td[j] - vzero * np.abs(j - xsa) * dx
             tauev = td[j - 1] - vzero * np.abs(j - xsa - 1.0) * dx
 
-            dzi = 1.0 / dzd
-            dz2i = dz / dzd / dzd
+            dzi = 1.0 / (dzd * dz)
+            dz2i = dzi / (dzd * dz)
             taue = tt[zsi + 1, j - 1] - t_ana(zsi + 1, j - 1, dz, dx, zsa, xsa, vzero)
             t0c, tzc, txc = t_anad(zsi + 1, j, dz, dx, zsa, xsa, vzero)
             tt[zsi + 1, j] = delta(
@@ -409,8 +409,8 @@ def fteik2d(slow, dz, dx, zsrc, xsrc, nsweep=2, grad=False):
                 ttsgn[zsi + 1, j, 1] = 1
 
             if dzu > 0.0:
-                dzi = 1.0 / dzu
-                dz2i = dz / dzu / dzu
+                dzi = 1.0 / (dzu * dz)
+                dz2i = dzi / (dzu * dz)
                 taue = tt[zsi, j - 1] - t_ana(zsi, j - 1, dz, dx, zsa, xsa, vzero)
                 t0c, tzc, txc = t_anad(zsi, j, dz, dx, zsa, xsa, vzero)
                 tt[zsi, j] = delta(
@@ -441,8 +441,8 @@ def fteik2d(slow, dz, dx, zsrc, xsrc, nsweep=2, grad=False):
             tauv = td[j] - vzero * np.abs(j - xsa) * dx
             tauev = td[j + 1] - vzero * np.abs(j - xsa + 1.0) * dx
 
-            dzi = 1.0 / dzd
-            dz2i = dz / dzd / dzd
+            dzi = 1.0 / (dzd * dz)
+            dz2i = dzi / (dzd * dz)
             taue = tt[zsi + 1, j + 1] - t_ana(zsi + 1, j + 1, dz, dx, zsa, xsa, vzero)
             t0c, tzc, txc = t_anad(zsi + 1, j, dz, dx, zsa, xsa, vzero)
             tt[zsi + 1, j] = delta(
@@ -467,8 +467,8 @@ def fteik2d(slow, dz, dx, zsrc, xsrc, nsweep=2, grad=False):
                 ttsgn[zsi + 1, j, 1] = -1
 
             if dzu > 0.0:
-                dzi = 1.0 / dzu
-                dz2i = dz / dzu / dzu
+                dzi = 1.0 / (dzu * dz)
+                dz2i = dzi / (dzu * dz)
                 taue = tt[zsi + 1, j + 1] - t_ana(
                     zsi + 1, j + 1, dz, dx, zsa, xsa, vzero
                 )
@@ -504,8 +504,8 @@ def fteik2d(slow, dz, dx, zsrc, xsrc, nsweep=2, grad=False):
             taue = td[i] - vzero * np.abs(i - zsa) * dz
             tauev = td[i - 1] - vzero * np.abs(i - zsa - 1.0) * dz
 
-            dxi = 1.0 / dxe
-            dx2i = dx / dxe / dxe
+            dxi = 1.0 / (dxe * dx)
+            dx2i = dxi / (dxe * dx)
             tauv = tt[i - 1, xsi + 1] - t_ana(i - 1, xsi + 1, dz, dx, zsa, xsa, vzero)
             t0c, tzc, txc = t_anad(i, xsi + 1, dz, dx, zsa, xsa, vzero)
             tt[i, xsi + 1] = delta(
@@ -530,8 +530,8 @@ def fteik2d(slow, dz, dx, zsrc, xsrc, nsweep=2, grad=False):
                 ttsgn[i, xsi + 1, 1] = 1
 
             if dxw > 0.0:
-                dxi = 1.0 / dxw
-                dx2i = dx / dxw / dxw
+                dxi = 1.0 / (dxw * dx)
+                dx2i = dxi / (dxw * dx)
                 tauv = tt[i - 1, xsi] - t_ana(i - 1, xsi, dz, dx, zsa, xsa, vzero)
                 t0c, tzc, txc = t_anad(i, xsi, dz, dx, zsa, xsa, vzero)
                 tt[i, xsi] = delta(
@@ -562,8 +562,8 @@ def fteik2d(slow, dz, dx, zsrc, xsrc, nsweep=2, grad=False):
             taue = td[i] - vzero * np.abs(i - zsa) * dz
             tauev = td[i + 1] - vzero * np.abs(i - zsa + 1.0) * dz
 
-            dxi = 1.0 / dxe
-            dx2i = dx / dxe / dxe
+            dxi = 1.0 / (dxe * dx)
+            dx2i = dxi / (dxe * dx)
             tauv = tt[i + 1, xsi + 1] - t_ana(i + 1, xsi + 1, dz, dx, zsa, xsa, vzero)
             t0c, tzc, txc = t_anad(i, xsi + 1, dz, dx, zsa, xsa, vzero)
             tt[i, xsi + 1] = delta(
@@ -588,8 +588,8 @@ def fteik2d(slow, dz, dx, zsrc, xsrc, nsweep=2, grad=False):
                 ttsgn[i, xsi + 1, 1] = 1
 
             if dxw > 0.0:
-                dxi = 1.0 / dxw
-                dx2i = dx / dxw / dxw
+                dxi = 1.0 / (dxw * dx)
+                dx2i = dxi / (dxw * dx)
                 tauv = tt[i + 1, xsi] - t_ana(i + 1, xsi, dz, dx, zsa, xsa, vzero)
                 t0c, tzc, txc = t_anad(i, xsi, dz, dx, zsa, xsa, vzero)
                 tt[i, xsi] = delta(
